@@ -226,6 +226,18 @@ def _eval_rows(rows, params):
             return getattr(math, name.split('.')[1])(*args)
         if f[0] == 'attr' and f[2] == 'bit_length' and not args:
             return ev(f[1], m).bit_length()
+        if f[0] == 'attr' and f[2] == 'to_bytes':
+            try:
+                return ev(f[1], m).to_bytes(*args, **kw)
+            except (OverflowError, ValueError, TypeError, AttributeError) as e_:
+                raise teval.EvalUnknown(f"to_bytes: {e_}")
+        if name == 'int.from_bytes':
+            try:
+                return int.from_bytes(*args, **kw)
+            except (ValueError, TypeError) as e_:
+                raise teval.EvalUnknown(f"from_bytes: {e_}")
+        if name in ('len', 'bytes', 'str'):
+            return {'len': len, 'bytes': bytes, 'str': str}[name](*args, **kw)
         raise teval.EvalUnknown(name)
     m = teval.Model(params=params, names=teval_names(), calls=calls)
     for (k, gs, v, ln) in rows:
@@ -926,7 +938,20 @@ def help_siblings(chk, program, rule='HELP-SIB'):
                 return tuple(a.value for a in n.args)
         return None
     de, ee = epoch('decode_date'), epoch('encode_date')
-    if de is None or ee is None:
+    # a witness that needs no epoch: calendar arithmetic through the process's local time zone or clock (fromtimestamp without tz, localtime, mktime,
+    # today, now) gives another date on a machine west of Greenwich / at another moment
+    local = []
+    for hn in ('decode_date', 'encode_date', 'decode_time', 'encode_time'):
+        for n_ in ast.walk(hs[hn]) if hn in hs else ():
+            if isinstance(n_, ast.Call) and isinstance(n_.func, ast.Attribute) and n_.func.attr in ('fromtimestamp', 'localtime', 'mktime', 'today', 'now', 'timestamp', 'astimezone') \
+                    and not any(k.arg in ('tz', 'tzinfo') for k in n_.keywords) and not (n_.func.attr == 'fromtimestamp' and len(n_.args) >= 2):
+                local.append((hn, n_))
+    for hn, n_ in local:
+        chk.violation(rule, f"{hn}::local-time-zone", file=UT, line=n_.lineno, func=hn, expected='days / seconds converted by pure arithmetic from 1970-01-01 (no local time zone, no clock)',
+                      found=ast.unparse(n_)[:80], detail='the decoded date / time depends on the time zone (or the clock) of the process: day 0 decodes to 1969-12-31 west of Greenwich')
+    if local:
+        pass
+    elif de is None or ee is None:
         # no date(<y>, <m>, <d>) literal in one of the helpers: the epoch lives elsewhere (a module constant, a class): nothing was read
         chk.unknown(rule, 'date-epoch', f"no literal date(y, m, d) in decode_date / encode_date: {de} / {ee}", UT, hs['decode_date'].lineno)
     else:
